@@ -3,6 +3,7 @@ package main
 import (
 	"fmt"
 	"go/token"
+	"go/types"
 	"sort"
 	"strings"
 
@@ -562,6 +563,13 @@ func c04R3(c *Ctx, p *Prog, rule string) {
 				c.Undec(rule, spec+"#ep-new", st.Pos(), "stored en-passant value is neither 0 nor a two-way choice between 0 and a square")
 			}
 		}
+		// uses of the en-passant key: raw table terms, and calls of a helper mapping a square to its key (self-gated on square != 0)
+		type epUse struct {
+			t         *hashTerm
+			x         ssa.Value
+			selfGated bool
+		}
+		var uses []epUse
 		for i := range byKind["ep"] {
 			t := &byKind["ep"][i]
 			if len(t.Idx) != 1 {
@@ -572,22 +580,39 @@ func c04R3(c *Ctx, p *Prog, rule string) {
 				c.Fail(rule, spec+"#ep-index", t.Val.Pos(), "epFileRand is indexed by something other than the file of a square")
 				continue
 			}
-			x = stripConv(x)
-			if isFieldLoad(x, "Board.EnPassant") {
-				oldTerm = t
-			} else if newVal != nil && sameValue(x, newVal, 0) {
-				newTerm = t
-			} else {
-				c.Fail(rule, spec+"#ep-index", t.Val.Pos(), "epFileRand term is keyed on neither the old nor the new en-passant square")
+			uses = append(uses, epUse{t, stripConv(x), false})
+		}
+		for i := range byKind["unknown-call"] {
+			t := &byKind["unknown-call"][i]
+			call := t.Val.(*ssa.Call)
+			if pix, ok := epHelper(call.Call.StaticCallee()); ok && pix < len(call.Call.Args) {
+				uses = append(uses, epUse{t, stripConv(call.Call.Args[pix]), true})
+			}
+		}
+		oldSelf, newSelfPhi := false, false
+		for _, u := range uses {
+			switch {
+			case isFieldLoad(u.x, "Board.EnPassant"):
+				oldTerm, oldSelf = u.t, u.selfGated
+			case newVal != nil && sameValue(u.x, newVal, 0):
+				newTerm = u.t
+			case u.selfGated && newPhi != nil && u.x == ssa.Value(newPhi):
+				newTerm, newSelfPhi = u.t, true
+			default:
+				c.Fail(rule, spec+"#ep-index", u.t.Val.Pos(), "epFileRand term is keyed on neither the old nor the new en-passant square")
 			}
 		}
 		// old
 		if oldTerm == nil {
 			c.Fail(rule, spec+"#ep-old", eps[0].Pos(), "EnPassant is overwritten but the old square's epFileRand key is never removed from the hash")
 		} else {
-			fx, _ := fileOf(oldTerm.Idx[0])
-			ld := stripConv(fx).(*ssa.UnOp)
-			okOld := true
+			var ld ssa.Instruction
+			for _, u := range uses {
+				if u.t == oldTerm {
+					ld, _ = u.x.(ssa.Instruction)
+				}
+			}
+			okOld := ld != nil
 			why := ""
 			for _, st := range eps {
 				if r, _ := reachAvoiding(st, ld, nil); r {
@@ -609,7 +634,12 @@ func c04R3(c *Ctx, p *Prog, rule string) {
 					conds = append(conds, ce)
 				}
 			}
-			if len(conds) != 1 || !conds[0].True || !isNeqZeroOfField(conds[0].Cond, "Board.EnPassant") {
+			if oldSelf {
+				if len(conds) != 0 {
+					okOld = false
+					why = "the removal of the old key runs only on some paths"
+				}
+			} else if len(conds) != 1 || !conds[0].True || !isNeqZeroOfField(conds[0].Cond, "Board.EnPassant") {
 				okOld = false
 				why = "the removal is not guarded by exactly `EnPassant != 0`"
 			}
@@ -625,7 +655,14 @@ func c04R3(c *Ctx, p *Prog, rule string) {
 				c.Fail(rule, spec+"#ep-new", newVal.Pos(), "a non-zero en-passant square is stored but its epFileRand key is never added to the hash")
 			} else {
 				okNew := true
+				if newSelfPhi {
+					// the helper sees the stored value itself (0 or the square) and is applied on every path
+					okNew = newTerm.Xor == nil || blockDomOrSame(newTerm.Xor.Block(), app.Block())
+				}
 				for i, e := range newPhi.Edges {
+					if newSelfPhi {
+						break
+					}
 					pred := newPhi.Block().Preds[i]
 					dom := blockDomOrSame(newTerm.Xor.Block(), pred)
 					if v, ok := constOf(e); ok && v == 0 {
@@ -638,10 +675,120 @@ func c04R3(c *Ctx, p *Prog, rule string) {
 				}
 				c.Check(okNew, rule, spec+"#ep-new", newTerm.Val.Pos(), "new en-passant file key is added exactly on the paths that store the non-zero square")
 			}
-		} else if len(byKind["ep"]) > 1 {
+		} else if len(uses) > 1 {
 			c.Fail(rule, spec+"#ep-new", eps[0].Pos(), "epFileRand added although only 0 is ever stored to EnPassant")
 		}
 	}
+}
+
+// epHelper: h maps an en-passant square to its hash contribution: 0 for square 0, otherwise
+// epFileRand[file of the square]. Returns the index of the square parameter.
+func epHelper(h *ssa.Function) (int, bool) {
+	if h == nil || h.Blocks == nil || h.Signature.Results().Len() != 1 {
+		return -1, false
+	}
+	pix := -1
+	for i, par := range h.Params {
+		if n, ok := types.Unalias(par.Type()).(*types.Named); ok && n.Obj().Name() == "Square" {
+			if pix >= 0 {
+				return -1, false
+			}
+			pix = i
+		}
+	}
+	if pix < 0 {
+		return -1, false
+	}
+	par := h.Params[pix]
+	nonzero := func(b *ssa.BasicBlock) (known, nz bool) {
+		for _, ce := range controllingConds(b) {
+			bo, ok := ce.Cond.(*ssa.BinOp)
+			if !ok || stripConv(bo.X) != ssa.Value(par) {
+				continue
+			}
+			if k, isc := constOf(bo.Y); !isc || k != 0 {
+				continue
+			}
+			switch bo.Op {
+			case token.NEQ:
+				return true, ce.True
+			case token.EQL:
+				return true, !ce.True
+			}
+		}
+		return false, false
+	}
+	sawKey, sawZero := false, false
+	for _, as := range resultAssignments(h, 0) {
+		known, nz := nonzero(as.Block)
+		if k, isc := constOf(as.Val); isc && k == 0 {
+			if !known || nz {
+				return -1, false
+			}
+			sawZero = true
+			continue
+		}
+		t := classifyTerm(as.Val, nil)
+		if t.Kind != "ep" || len(t.Idx) != 1 || !known || !nz {
+			return -1, false
+		}
+		x, isFile := fileOf(t.Idx[0])
+		if !isFile || stripConv(x) != ssa.Value(par) {
+			return -1, false
+		}
+		sawKey = true
+	}
+	return pix, sawKey && sawZero
+}
+
+// castlingHelper: h(rights) is the xor of castlingRand[i] over exactly the bits i set in its
+// Castles parameter (every index, each gated by its own bit). Returns the parameter index.
+func castlingHelper(c *Ctx, p *Prog, h *ssa.Function) (int, bool) {
+	if h == nil || h.Blocks == nil || h.Signature.Results().Len() != 1 {
+		return -1, false
+	}
+	pix := -1
+	for i, par := range h.Params {
+		if n, ok := types.Unalias(par.Type()).(*types.Named); ok && n.Obj().Name() == "Castles" {
+			if pix >= 0 {
+				return -1, false
+			}
+			pix = i
+		}
+	}
+	if pix < 0 {
+		return -1, false
+	}
+	var inner []hashTerm
+	for _, as := range resultAssignments(h, 0) {
+		for _, it := range collectXorTerms(as.Val) {
+			switch it.Kind {
+			case "castling":
+				inner = append(inner, it)
+			case "base":
+			default:
+				return -1, false
+			}
+		}
+	}
+	if len(inner) == 0 {
+		return -1, false
+	}
+	n := arrayLenOfGlobal(p, "board.castlingRand")
+	tmp := &Ctx{Prop: c.Prop, Tier: c.Tier, Progs: c.Progs, cur: c.cur}
+	seen := map[int64]bool{}
+	castlingTerms(tmp, p, "tmp", "helper", inner, h.Params[pix], nil, n, seen, 1)
+	for _, o := range tmp.Obs {
+		if o.Verdict != OK {
+			return -1, false
+		}
+	}
+	for i := 0; i < n; i++ {
+		if !seen[int64(i)] {
+			return -1, false
+		}
+	}
+	return pix, true
 }
 
 func isNeqZeroOfField(v ssa.Value, field string) bool {
@@ -678,6 +825,24 @@ func c04R4(c *Ctx, p *Prog, rule string) {
 		key := "calculateHash#" + t.Kind
 		switch t.Kind {
 		case "unknown":
+			// a helper that maps the rights / the en-passant square to their keys
+			if call, isCall := t.Val.(*ssa.Call); isCall {
+				h := call.Call.StaticCallee()
+				if h != nil && isOwn(h) {
+					if pix, ok := castlingHelper(c, p, h); ok && pix < len(call.Call.Args) {
+						kinds["unknown"]--
+						kinds["castling"]++
+						c.Check(isFieldLoad(stripConv(call.Call.Args[pix]), "Board.Castles"), rule, "calculateHash#castling", t.Val.Pos(), "the castling keys are those of the bits set in Castles (through %s, which pairs key i with bit i)", h.Name())
+						continue
+					}
+					if pix, ok := epHelper(h); ok && pix < len(call.Call.Args) {
+						kinds["unknown"]--
+						kinds["ep"]++
+						c.Check(isFieldLoad(stripConv(call.Call.Args[pix]), "Board.EnPassant"), rule, "calculateHash#ep", t.Val.Pos(), "en-passant key is that of the file of EnPassant, none for 0 (through %s)", h.Name())
+						continue
+					}
+				}
+			}
 			c.Undec(rule, key, t.Val.Pos(), "unrecognised term %s in the from-scratch hash", t.Val)
 		case "pieces":
 			// piecesRand[color][SquaresToPiece[sq]][sq] with sq from Colors[color]
@@ -732,6 +897,12 @@ func c04R4(c *Ctx, p *Prog, rule string) {
 					if w, bit, isBT := bitTest(ce.Cond); isBT && isFieldLoad(stripConv(w), "Board.Castles") && sameIdx(stripConv(bit), stripConv(t.Idx[0])) {
 						ok = true
 					}
+				}
+			}
+			// branch-free form: key & hashEnable[(Castles>>i)&1]
+			if !ok && t.Enable != nil && len(t.Idx) == 1 {
+				if w, bit, isBT := bitTest(t.Enable); isBT && isFieldLoad(stripConv(w), "Board.Castles") && sameIdx(stripConv(bit), stripConv(t.Idx[0])) {
+					ok = true
 				}
 			}
 			c.Check(ok, rule, key, t.Val.Pos(), "castlingRand[i] is included iff bit i of Castles is set — the same index/bit pairing as the incremental update (C04.R3)")
